@@ -35,27 +35,63 @@ def parseRace (s : String) : Option (List St × List (String × Nat) × List (St
     | _, _, _, _ => none
   | _ => none
 
-def parseRole : String → Option Role
-  | "p" => some .part | "c" => some .coord | _ => none
+/-- role letter: p | c = participant | coordinator with processes that are not retryable; P | C = retryable -/
+def parseRole : String → Option (Role × Bool)
+  | "p" => some (.part, false) | "c" => some (.coord, false)
+  | "P" => some (.part, true) | "C" => some (.coord, true) | _ => none
 
 def parseOutcome : String → Option Outcome
-  | "ok" => some .ok | "fail" => some .fail | "failmsg" => some .failmsg | "gtorun" => some .gtorun
+  | "ok" => some .ok | "fail" => some .fail | "failhold" => some .fail | "failmsg" => some .failmsg
+  | "gtorun" => some .gtorun
   | "cancelrun" => some .cancelrun | "silent" => some .silent | "gto" => some .gto | "cancel" => some .cancel
-  | "badstart" => some .badstart | "stranger" => some .stranger | "readyerr" => some .readyerr | _ => none
+  | "badstart" => some .badstart | "stranger" => some .stranger | "readyerr" => some .readyerr
+  | "comm" => some .comm | "subset" => some .subset | _ => none
 
 /-- outcomes that exist for a role: a coordinating relayer does not wait for a start message -/
 def validFor : Role → Outcome → Bool
-  | .coord, .silent | .coord, .badstart | .coord, .stranger | .coord, .failmsg => false
+  | .coord, .silent | .coord, .badstart | .coord, .stranger | .coord, .failmsg | .coord, .subset => false
   | .part, .readyerr => false
   | _, _ => true
 
+/-- does `handleError` classify the failure (and so make a second attempt)? -/
+def classified : Outcome → Bool
+  | .silent | .comm | .subset => true
+  | _ => false
+
+def parseSecond : String → Option Second
+  | s => match s.splitOn ":" with
+    | [e, f] => do
+      let e ← match e with | "self" => some Elected.self | "other" => some .other | "any" => some .any | _ => none
+      let f ← match f with
+        | "ok" => some End2.ok | "fail" => some .fail | "cancel" => some .cancel | "idle" => some .idle
+        | "silent" => some .silent | _ => none
+      pure ⟨e, f⟩
+    | _ => none
+
+/-- second attempts the harness can script: SubsetError waits for anybody, the other failures go through an election;
+    only another relayer can stay silent as coordinator; a relayer that coordinates (role C) is alone in its election -/
+def validSecond (r : Role) (o : Outcome) (t : Second) : Bool :=
+  (if o = .subset then t.elected = .any else t.elected ≠ .any) &&
+  (t.fin ≠ .silent || (t.elected = .other && o = .silent)) &&
+  (r = .part || t.elected = .self)
+
 def parseSess (s : String) : Option Sess :=
-  match s.splitOn ":" with
+  let (first, second) := match s.splitOn ">" with
+    | [a, b] => (a, some b)
+    | _ => (s, none)
+  match first.splitOn ":" with
   | [sid, r, n, o] => do
-    let r ← parseRole r
+    let (r, retryable) ← parseRole r
     let n ← n.toNat?
     let o ← parseOutcome o
-    if validFor r o && n ≥ 1 then pure ⟨sid, r, n, o⟩ else none
+    if !(validFor r o && n ≥ 1) then none else
+    match second with
+    | none =>
+      -- a retryable process whose failure is classified always gets a second attempt: it has to be scripted
+      if retryable && classified o then none else pure ⟨sid, r, n, o, retryable, none⟩
+    | some t => do
+      let t ← parseSecond t
+      if retryable && classified o && validSecond r o t then pure ⟨sid, r, n, o, true, some t⟩ else none
   | _ => none
 
 def showRet : Ret → String
@@ -68,12 +104,13 @@ def plusList (xs : List Nat) : String := "+".intercalate (xs.map toString)
 
 def showReport (r : Report) : String :=
   "/".intercalate [showRet r.ret, toString r.sub, toString r.unsub, toString r.close, toString r.live,
-    toString r.streams, "0", plusList r.runs, plusList r.stops, if r.pend then "1" else "0"]
+    toString r.streams, "0", plusList r.runs, plusList r.stops, if r.pend then "1" else "0",
+    toString r.elive, toString r.estreams]
 
 /-- report and the count of streams the host still has open -/
 def parseReport (s : String) : Option (Report × Nat) :=
   match s.splitOn "/" with
-  | [ret, sub, unsub, close, live, streams, op, runs, stops, pend] => do
+  | [ret, sub, unsub, close, live, streams, op, runs, stops, pend, elive, estreams] => do
     let ret ← parseRet ret
     let sub ← sub.toNat?
     let unsub ← unsub.toNat?
@@ -84,7 +121,9 @@ def parseReport (s : String) : Option (Report × Nat) :=
     let runs ← (runs.splitOn "+").mapM String.toNat?
     let stops ← (stops.splitOn "+").mapM String.toNat?
     let pend ← if pend = "1" then some true else if pend = "0" then some false else none
-    pure (⟨ret, sub, unsub, close, live, streams, runs, stops, pend⟩, op)
+    let elive ← elive.toNat?
+    let estreams ← estreams.toNat?
+    pure (⟨ret, sub, unsub, close, live, streams, runs, stops, pend, elive, estreams⟩, op)
   | _ => none
 
 def handle (op : String) (args : List String) (impl : String) : Option Verdict :=
@@ -114,7 +153,7 @@ def handle (op : String) (args : List String) (impl : String) : Option Verdict :
     return ⟨m, ok, s!"race:n={min sids.length 4}:ids={keys.length}:refused={min nR 2}:done={min nD 2}"⟩
   | "sess", [ss] => some <| Id.run do
     let some sess := (items ss ",").mapM parseSess | return bad
-    let (_, reps) := executeAll ⟨[], [], [], 0⟩ sess
+    let (_, reps) := executeAll (Led.empty 0) sess
     let m := joinOr (reps.map showReport) ","
     let irs := (items impl ",").map parseReport
     let ok := irs.length = sess.length && (sess.zip irs).all fun (s, r) =>
@@ -122,7 +161,7 @@ def handle (op : String) (args : List String) (impl : String) : Option Verdict :
       | some (rep, op) => decide (Clean s.nproc rep) && op = 0
       | none => false
     let tag := match sess.head? with
-      | some s => s!"sess:{repr s.role}:{repr s.out}:n={min sess.length 3}"
+      | some s => s!"sess:{repr s.role}:{repr s.out}:{repr (s.second.map (·.elected))}:n={min sess.length 3}"
       | none => "sess:empty"
     return ⟨m, ok, tag⟩
   | "stress", [n] => some <| Id.run do
